@@ -218,7 +218,8 @@ func checkC07(c c07Case, ctx *vCtx) *vFailure {
 
 	// R1: report totals = sum over days of the register's daily totals, in the default presentation and in one other
 	// (old reporter, totals only, left-aligned template: the totals are the same figures)
-	r1Alt := [][]string{{"reg", "--use-old-reg-reporter"}, {"reg", "--use-old-reg-reporter", "--totals-only"}, {"reg", "--totals-only"}, {"reg", "--internal-template-name", "left-aligned"}}[(len(regDays)+len(totals))%4]
+	r1Alt := [][]string{{"reg", "--use-old-reg-reporter"}, {"reg", "--use-old-reg-reporter", "--totals-only"}, {"reg", "--totals-only"}, {"reg", "--internal-template-name", "left-aligned"},
+		{"reg", "--shorten"}, {"reg", "--shorten", "--totals-only"}, {"reg", "--use-old-reg-reporter", "--shorten"}}[(len(regDays)+len(totals))%7]
 	for variant := 0; variant < 2; variant++ {
 		days := regDays
 		if variant == 1 {
@@ -228,6 +229,27 @@ func checkC07(c c07Case, ctx *vCtx) *vFailure {
 			} else {
 				days = vReadRegister(out)
 			}
+		}
+		if variant == 1 && len(r1Alt) > 1 && (r1Alt[1] == "--shorten" || r1Alt[len(r1Alt)-1] == "--shorten") {
+			// shortened names cannot be matched one to one with the full names of report totals: the amounts over all
+			// elements are compared instead
+			var parts []*big.Rat
+			for _, d := range days {
+				for _, t := range d.Totals {
+					parts = append(parts, vNum(t.Pos), vNum(t.Neg))
+				}
+			}
+			all := new(big.Rat)
+			for _, t := range totals {
+				all.Add(all, vNum(t.Pos))
+				all.Add(all, vNum(t.Neg))
+				parts = append(parts, new(big.Rat)) // one more rounded figure on the other side
+			}
+			if !vSumEq(all, parts, exact, vCent) {
+				return vFailf("R1: the positive and negative amounts of report totals add up to %s over all elements, the daily totals of %v to something else (%d figures)", all.FloatString(2), r1Alt, len(parts))
+			}
+			ctx.Label("R1-shortened")
+			continue
 		}
 		pos, neg, sum := map[string][]*big.Rat{}, map[string][]*big.Rat{}, map[string][]*big.Rat{}
 		for _, d := range days {
@@ -590,6 +612,8 @@ func vQuoteMeta(s string) string {
 }
 
 func genC07(t *rapid.T) c07Case {
+	vLongNameOneIn = 4 // names longer than the columns of the register (shortened there with --shorten, nowhere else)
+	defer func() { vLongNameOneIn = 10 }()
 	sorted := rapid.Bool().Draw(t, "sorted")
 	s := vGenScenario(t, vScenOpts{Paths: rapid.Bool().Draw(t, "paths"), MinDays: 1, MaxDays: 6, MaxEntries: 5, Sorted: sorted, NUnknown: 3, Window: 8})
 	c := c07Case{S: s, Sorted: sorted, Begin: c07Absent, End: c07Absent}
